@@ -1,5 +1,5 @@
 import Sucds.Proofs.Rank9Build
-import Sucds.Props.C14Lsb
+import Sucds.Proofs.C14Lsb
 set_option linter.unusedSimpArgs false
 set_option linter.unusedVariables false
 namespace Sucds
